@@ -26,11 +26,12 @@ ASSUMPTIONS = [
     "class table: (module, qualname) identifies a class; builtins are the classes whose __module__ is 'builtins'",
 ]
 PARTIAL = [
-    "render_resolves_partial carries `strip_is_tokenwise` (per-annotation stripping = whole-line stripping, and the text "
-    "parses back to the token-level rendering) as a boolean premise evaluated per case by vm_compute; the stringology lemma "
-    "replace_tokenwise (str.replace / re.sub act token-wise when no module prefix overlaps) is not proved",
+    "the text level is proved (render_parse_back, strip_is_tokenwise, render_resolves_text: stripping module prefixes from the "
+    "rendered text equals printing with stripped class texts, and the text evaluates to the type) under the boolean side "
+    "condition text_ok (lexically well-formed class names, no module prefix overlapping a name), which is evaluated per case by "
+    "vm_compute; generated TypedDict classes are covered for the flat case only (td_stub_resolves_flat_partial)",
     "C11_full is false of today's code and of the repaired code: finding classes kf_same_root_name, kf_td_not_descended, "
-    "kf_nonetype_in_name, kf_typing_in_name, kf_hint_collision, kf_td_field_names (Refuted/C11.v)",
+    "kf_nonetype_in_name, kf_typing_in_name, kf_hint_collision, kf_td_field_names, kf_fwd_not_descended (Refuted/C11.v)",
 ]
 
 HEADER = """From MT Require Import Common RenderCases.
@@ -73,6 +74,8 @@ def show_ty(j):
         return q if m == "builtins" else f"{m}.{q}"
     if k in ("any", "callable"):
         return k.capitalize()
+    if k == "alias":
+        return render_fixture.alias_text(j[1])
     if k == "td":
         return "TD{%s|%s}" % (", ".join(f"{n}: {show_ty(t)}" for n, t in j[1]), ", ".join(f"{n}: {show_ty(t)}" for n, t in j[2]))
     name = {"list": "List", "set": "Set", "iter": "Iterator", "type": "Type", "dict": "Dict", "ddict": "DefaultDict",
@@ -96,6 +99,8 @@ def show_case(c):
 
 def kinds_of(j, acc):
     acc[j[0]] = acc.get(j[0], 0) + 1
+    if j[0] == "alias":
+        return
     if j[0] == "td":
         for _, t in j[1] + j[2]:
             kinds_of(t, acc)
@@ -119,6 +124,8 @@ def nontrivial(c):
                 kinds_of(t, acc)
                 n_anno += 1
     def has_user(j):
+        if j[0] == "alias":
+            return True
         if j[0] == "cls":
             return render_fixture.POOL[j[1]][0] != "builtins"
         if j[0] == "td":
